@@ -734,7 +734,34 @@ pub const START_VALUES: &[&str] = &[
 pub fn random_op(r: &mut Rng) -> Op {
     use crate::gen::*;
     fn arg(r: &mut Rng, pool: &[&str], inval: &[&str]) -> Vec<u8> {
-        let mut s: Vec<u8> = if r.chance(1, 8) { r.pick(inval).as_bytes().to_vec() } else { r.pick(pool).as_bytes().to_vec() };
+        // one draw in six comes from the real-world lexicon of the same kind (valid or not: the model judges)
+        use crate::lexicon as lx;
+        let real: &[&str] = if std::ptr::eq(pool.as_ptr(), LANGS.as_ptr()) {
+            lx::LANGS
+        } else if std::ptr::eq(pool.as_ptr(), SCRIPTS.as_ptr()) {
+            lx::SCRIPTS
+        } else if std::ptr::eq(pool.as_ptr(), REGIONS.as_ptr()) {
+            lx::REGIONS
+        } else if std::ptr::eq(pool.as_ptr(), VARIANTS.as_ptr()) {
+            lx::VARIANTS
+        } else if std::ptr::eq(pool.as_ptr(), UKEYS.as_ptr()) {
+            lx::UKEYS
+        } else if std::ptr::eq(pool.as_ptr(), TKEYS.as_ptr()) {
+            lx::TKEYS
+        } else if std::ptr::eq(pool.as_ptr(), TVALUES.as_ptr()) {
+            lx::TVALUES
+        } else if std::ptr::eq(pool.as_ptr(), UTYPES.as_ptr()) || std::ptr::eq(pool.as_ptr(), ATTRS.as_ptr()) {
+            lx::UTYPES
+        } else {
+            pool
+        };
+        let mut s: Vec<u8> = if r.chance(1, 8) {
+            r.pick(inval).as_bytes().to_vec()
+        } else if r.chance(1, 6) {
+            r.pick(real).as_bytes().to_vec()
+        } else {
+            r.pick(pool).as_bytes().to_vec()
+        };
         match r.below(6) {
             0 => s.make_ascii_uppercase(),
             1 => {
